@@ -109,7 +109,11 @@ Qed.
 Lemma put_chan_closed s i : chan_closed (P s) i = (P (fst (chan_closed s i)), snd (chan_closed s i)) /\ plains (snd (chan_closed s i)).
 Proof.
   unfold chan_closed. change (table (P s)) with (table s). destruct (tget (table s) i) as [h|]; [|split; reflexivity].
-  change (set_table (P s) (tdel (table s) i)) with (P (set_table s (tdel (table s) i))). apply put_set_ready.
+  cbv zeta. change (set_table (P s) (tdel (table s) i)) with (P (set_table s (tdel (table s) i))).
+  set (s1 := set_table s (tdel (table s) i)). change (queue (P s1)) with (queue s1).
+  change (set_queue (P s1) (filter (fun it => negb (Nat.eqb (fst (fst it)) h)) (queue s1)))
+    with (P (set_queue s1 (filter (fun it => negb (Nat.eqb (fst (fst it)) h)) (queue s1)))).
+  apply put_set_ready.
 Qed.
 
 Lemma put_close_local s h id : close_local (P s) h id = (P (fst (close_local s h id)), snd (close_local s h id)) /\ plains (snd (close_local s h id)).
